@@ -68,6 +68,8 @@ def collect(args):
         patch = os.path.join(sdir, d, "patch.diff")
         if os.path.exists(meta) and os.path.exists(patch):
             mj = json.load(open(meta))
+            if mj.get("not_counted") and not args.only:
+                continue  # recorded as outside the properties' quantifier (see its meta.json)
             muts.append({"name": f"seeded-{d}", "kind": "patch", "patch": patch, "property": mj["property"], "checks": mj.get("checks") or [mj["property"]], "desc": mj.get("summary", "")[:100]})
     if args.only:
         muts = [m for m in muts if any(o in m["name"] for o in args.only.split(","))]
